@@ -161,5 +161,11 @@ pub fn k_elf_iter_provided_methods() {
     assert!(got == want);
     assert!(mk().skip(c).next().is_none());
     assert!(mk().last().map(|s| s.inner as usize) == if c > 0 { Some(b.as_ptr() as usize + idx[c - 1] * 64) } else { None });
+    // a clone taken after one step is the same iterator state (position, count, entry size, string-table entry)
+    let mut it2 = mk();
+    let _ = it2.next();
+    let cl = it2.clone();
+    assert!(cl.current_section == it2.current_section && cl.remaining_sections == it2.remaining_sections
+        && cl.entry_size == it2.entry_size && cl.string_section == it2.string_section);
     kani::cover!(c == 2 && n == 1 && !used[0]);
 }
